@@ -124,8 +124,8 @@ func buildHistCalls(filesDir string) ([]histCall, [][]byte) {
 			encs[i].o = withDefaults(encs[i].o)
 		}
 	}
-	files := make([][]byte, len(encs)+8)
-	calls := make([]histCall, 37)
+	files := make([][]byte, len(encs)+10)
+	calls := make([]histCall, 39)
 	for i, e := range encs {
 		i, e := i, e
 		if filesDir == "" {
@@ -286,8 +286,14 @@ func buildHistCalls(filesDir string) ([]histCall, [][]byte) {
 		for k, num := range []int{1, 3, 5, 7} {
 			files[nEnc+4+k] = wrapVP8(pl4[:len(pl4)*num/8])
 		}
+		// two foreign lossy key frames (48x32, the macroblock grid of calls 1, 2): one that updates the loop-filter
+		// deltas, one that uses them without updating (the format then means "all zero"), both with a non-zero level
+		grng := rand.New(rand.NewSource(777))
+		fUpd := wrapVP8(genVP8Frame(grng, 3, 2, "lfdelta-all").Bytes)
+		fNoUpd := wrapVP8(genVP8Frame(grng, 3, 2, "lfdelta-keep").Bytes)
+		files[nEnc+8], files[nEnc+9] = fUpd, fNoUpd
 	} else {
-		for k := 0; k < 8; k++ {
+		for k := 0; k < 10; k++ {
 			b, err := os.ReadFile(fmt.Sprintf("%s/file%d.webp", filesDir, nEnc+k))
 			if err != nil {
 				vx.Fatal2("child: %v", err)
@@ -299,6 +305,8 @@ func buildHistCalls(filesDir string) ([]histCall, [][]byte) {
 	for k, num := range []int{1, 3, 5, 7} {
 		dec(33+k, fmt.Sprintf("Decode(lossy file#4 cut to %d/8 of its payload)", num), files[nEnc+4+k], "lossy.Decoder")
 	}
+	dec(37, "Decode(foreign VP8 frame that updates the loop-filter deltas)", files[nEnc+8], "lossy.Decoder")
+	dec(38, "Decode(foreign VP8 frame that uses loop-filter deltas without updating them)", files[nEnc+9], "lossy.Decoder")
 	dec(29, "Decode(still with raw filtered ALPH)", files[nEnc], "lossy.Decoder")
 	// a valid foreign lossless stream whose palette (17..255 colours) is smaller than the largest index used: the
 	// format defines those pixels as transparent black, whatever an earlier decode left in the pooled buffers
@@ -462,7 +470,7 @@ func runChild(hist []int) []string {
 func checkC11(args []string) {
 	run := vx.NewRun("C11", "model_checking", args)
 	activeRun = run
-	run.Rule = "TLC enumerates all call histories up to MAXLEN over the 37-call alphabet of spec/Pool.tla (lossy/lossless encodes and decodes with equal and different macroblock grids, parallel and serial paths, partitions/segments/SNS/dither/alpha options, decodes that fail mid-picture, animation, mux) together with the predicted pool reuse; every history is executed in one process with empty pools at its start and GC off; each result is compared with the same call made FIRST in a fresh process; all previously returned images/byte slices are re-hashed after every later call. distinct = distinct histories in which the model predicts (and the hook counters confirm) at least one reuse"
+	run.Rule = "TLC enumerates all call histories up to MAXLEN over the 39-call alphabet of spec/Pool.tla (lossy/lossless encodes and decodes with equal and different macroblock grids, parallel and serial paths, partitions/segments/SNS/dither/alpha options, decodes that fail mid-picture, animation, mux) together with the predicted pool reuse; every history is executed in one process with empty pools at its start and GC off; each result is compared with the same call made FIRST in a fresh process; all previously returned images/byte slices are re-hashed after every later call. distinct = distinct histories in which the model predicts (and the hook counters confirm) at least one reuse"
 	run.Assumptions = []string{"a fresh child process executing the call first defines Fresh(args)", "sync.Pool may drop objects: a predicted reuse that did not happen is reported as not covered, never as a violation", "GOMAXPROCS fixed to 8"}
 	runtime.GOMAXPROCS(8)
 	calls, files := buildHistCalls("")
